@@ -139,7 +139,7 @@ def oracle(case, run):
             if d[0] != 'DoneCb':
                 continue
             cond = FC.cond_holds(d[1], u['env'])
-            if prev is not None and KIND_OF.get(prev['priority']) != d[1]:
+            if env and prev is not None and KIND_OF.get(prev['priority']) != d[1]:
                 yield ('weaker-waiter-fired', {'waiter': d[1]},
                        'the %s waiter fired update_trigger while the strongest priority is %s'
                        % (d[1], prev['priority']), i)
